@@ -41,6 +41,11 @@ CHECKS = {
             "Round trips (Display, TOML, specfile) of generated specs compared on the full decision grid; generated/mutated/arbitrary strings parsed by flexi_logger and by a reference parser written from the documented grammar: Err iff malformed, salvaged spec decides like the well-formed parts. Search (30k quick / 1.5M thorough), no proof.",
             "trusts the reference parser; inputs the grammar leaves undefined are only checked for no-panic and Err<=>malformed",
             "DESIGN.md 4/C17"),
+    "C18": ("exploration",
+            "model-based histories (proptest) with self-checking record payloads; exactly-once / order / location invariants over all files",
+            "Generated histories mixing writes, flushes, rotations, external rename/remove + reopen_output, and reset_flw between up to three families (refused resets with another write mode included) in all synchronous write modes; afterwards every record must be found exactly once (unless it sat in an externally removed file), in increasing order inside every file and family, renamed files must hold a contiguous range ending right before their reopen, and records after reopen/reset must be in the original/new family. Search, not proof.",
+            "records between an external rename and reopen are generated only without rotation; records in externally removed files are unobservable",
+            "DESIGN.md 4/C18"),
     "C20": ("exploration",
             "reference renderers + JSON decode round trip over proptest-generated records, virtual ticking clock for the one-timestamp clause",
             "Generated records (hostile message text, optional location fields, key-values, recursive Display arguments) through every provided format function, both line endings, all write modes; file bytes must equal reference rendering + exactly one line ending per record (inner records first), coloured output minus SGR sequences must equal the plain rendering, JSON must be one parsable line decoding to the generated values, and all outputs of a record must show the timestamp the recording writer saw (clock advancing 1 us per reading). Search, not proof.",
